@@ -34,8 +34,11 @@ fn op_strategy(max: u32) -> BoxedStrategy<Op> {
 fn strategy(tier: Tier) -> BoxedStrategy<Case> {
     let max = 9000;
     let n = if tier == Tier::Thorough { 120 } else { 45 };
-    (proptest::sample::select(vec![3u8, 4]), proptest::sample::select(vec![None, Some(1024u32)]), pool_strategy(NameProfile::Ascii, 3, 6), vec(op_strategy(max), 3..=n))
-        .prop_map(|(version, max_buf, pool, ops)| Case { version, max_buf, start: Start::Fresh, pool, ops })
+    // a quarter of the histories start on a foreign-layout file: the unused rest of a stream's
+    // last (mini) sector and free sectors hold non-zero bytes there, which is legal
+    let start = prop_oneof![3 => Just(Start::Fresh), 1 => any::<u64>().prop_map(|seed| Start::Foreign { seed })];
+    (proptest::sample::select(vec![3u8, 4]), proptest::sample::select(vec![None, Some(1024u32)]), pool_strategy(NameProfile::Ascii, 3, 6), vec(op_strategy(max), 3..=n), start)
+        .prop_map(|(version, max_buf, pool, ops, start)| Case { version, max_buf, start, pool, ops })
         .boxed()
 }
 
@@ -69,7 +72,7 @@ pub fn def() -> PropDef {
     PropDef {
         id: "C08",
         level: "exploration",
-        rule: "histories of create (non-zero pattern), set_len by relative amounts around 64/512/4096 multiples and within one sector, absolute resizes, removals, overwrites, set_len through open handles, reopen; after each growing set_len the gained range is read through the same handle (handle variant), a fresh handle and after reopening the raw bytes and must be all zero; dumps every 4 ops show that no other stream changed. Non-trivial = the gained range, mapped to file offsets by the independent parser, overlaps bytes that were non-zero at some earlier step (shadow 'ever non-zero' bitmap of the file); distinct = distinct case JSON.",
+        rule: "histories (3/4 on a fresh file, 1/4 on a synthesized foreign-layout file whose sector slack and free sectors hold non-zero bytes) of create (non-zero pattern), set_len by relative amounts around 64/512/4096 multiples and within one sector, absolute resizes, removals, overwrites, set_len through open handles, reopen; after each growing set_len the gained range is read through the same handle (handle variant), a fresh handle and after reopening the raw bytes and must be all zero; dumps every 4 ops show that no other stream changed. Non-trivial = the gained range, mapped to file offsets by the independent parser, overlaps bytes that were non-zero at some earlier step (shadow 'ever non-zero' bitmap of the file); distinct = distinct case JSON.",
         assumptions: &["growth through write() is covered by C06; this check covers set_len growth"],
         quick_cases: 2500,
         thorough_cases: 30000,
